@@ -15,6 +15,9 @@
                      X and Y are the same object (collect_rollback_data / rollback / read / write / memcopy).
   WHO-fields         stack / heap / hp are written only by MemoryInstance's own methods.
   ROLLBACK           rollback restores sp (resize with 0), hp := data.hp, then replays stack and heap changes.
+  PRIORITY-stack-first  read / write_noownerchecks / memcopy select the heap buffer for a range only after the
+                     `end <= stack.len()` test of the same range failed (the retained heap buffer may reach below the
+                     stack extent on a reused instance).
 Not decided: the byte-level equality of contents.
 """
 import re
@@ -119,6 +122,42 @@ def run_growth(F, rep):
 
 
 
+def run_priority(F, rep):
+    def fn(name):
+        n, f = F.find(r"^" + re.escape(MI) + "::" + name + "$", ["fuel_vm"], one=True)
+        rep.saw(n)
+        return n, f
+    # ------------------------------------------------------------ stack has priority over the heap buffer
+    # The heap *buffer* keeps its capacity across resets, so heap_offset() can lie below stack.len(): an address that is
+    # inside the stack extent must be served from the stack. Every `start >= heap_offset()` dispatch therefore sits on the
+    # false side of the `end <= stack.len()` test of the same range.
+    rep.rule("PRIORITY-stack-first", "heap dispatch only after the stack test of the same range failed (read / write / memcopy)")
+    npri = 0
+    for name in ("read", "write_noownerchecks", "memcopy"):
+        n, f = fn(name)
+        cfg = CFG(f)
+        where = "%s:%s" % (f["file"], f["line"])
+        gs = guards(f)
+        for g in gs:
+            rh = guard_region(g, r"^call:start\(", r"^call:heap_offset\(arg:self\)$")
+            if rh is None:
+                continue
+            rng = (g["a_desc"] if g["a_desc"].startswith("call:start(") else g["b_desc"])[len("call:start("):-1]
+            okp = False
+            for s_ in gs:
+                rs = guard_region(s_, r"^call:end\(" + re.escape(rng) + r"\)$", r"^call:len\(arg:self\.stack\)$")
+                if rs is None:
+                    continue
+                not_stack = s_["f"] if rs == {"lt", "eq"} else (s_["t"] if rs == {"gt"} else None)
+                if not_stack is not None and (cfg.dominates(not_stack, g["bb"]) or not_stack == g["bb"]):
+                    okp = True
+            npri += 1
+            rep.check(okp, "PRIORITY-stack-first", "%s:%s" % (name, rng[-40:]), where,
+                      "the heap buffer is selected for range %s without first failing the `end <= stack.len()` test of that range" % rng)
+    rep.floor("PRIORITY-stack-first", "heap dispatch guards", npri, 5)
+
+
+
 def run(F, rep, tier, allfacts):
     cg = CallGraph(F, ["fuel_vm"])
     rep.rule("DOM-zero-on-grow", "no path to the hp update avoids the zero fills (except the impossible-None edge); resize fills with 0")
@@ -187,6 +226,8 @@ def run(F, rep, tier, allfacts):
             objs = set(re.findall(r"heap_offset\(arg:(\w+)\)", " ".join(a[1:])))
             rep.check(objs <= {m.group(1)}, "SIB-own-offset", "%s:%s.heap@L-ordinal%d" % (name, m.group(1), [x[0] for x in idx].index(i)), "%s:%s" % (f["file"], line),
                       "%s.heap is indexed with an offset computed from %s.heap_offset(): buffer-relative indices of different buffers are mixed" % (m.group(1), sorted(objs - {m.group(1)})))
+
+    run_priority(F, rep)
 
     # ------------------------------------------------------------ WHO fields
     fe = FieldEffects(cg, r"^" + re.escape(MI) + "$", re.escape(MI))
